@@ -14,7 +14,8 @@ func init() {
 			"assignment nodes are only built behind an allow-list target test; break/continue/return nodes only behind their context guard; the program is parsed completely before the evaluator is built; output is written unbuffered." +
 			" The assignment-target validation dominates every successful return of the assignment parselet; divisions are dominated by the zero test; the lexer produces EOF only at the real end of the text." +
 			" The regex of ~ / !~ is compiled at every evaluation and its error returned; Compare rejects containers whatever the other operand." +
-			" The call arm evaluates the node's whole argument list.",
+			" The call arm evaluates the node's whole argument list." +
+			" GetMember consults an object's map only for string / number keys; only blanks and comments are skipped between tokens.",
 		notDecided: "that each kind of fault is detected in the first place (operator tables: C05/C09/C16).",
 	})
 }
